@@ -11,7 +11,7 @@ DEFAULT_NOTE = ('Trusted: Coq 8.16.1 kernel (incl. vm_compute; no native_compute
                 'constants regenerated from the source on every run, and the Go-side property oracle. See DESIGN.md 3.7.')
 
 LEVEL_TEXT = {
- 'C01': 'Coq theorems over the faithful MemMapFs model (coq/Model/MemFs.v): child-index invariant WF preserved by every well-formed op sequence, failed calls are no-ops, listing/paging, rename moves subtrees, spelling (clean) invariance, a simulation against an independent POSIX spec (coq/Model/Posix.v), and — for every state and every name — nothing is created below a regular file (ENOTDIR, only the clock moves). Tie: every generated sequence (well-formed and malformed) is run on the real MemMapFs and on the extracted model incl. full dumps of the path map and child index; oracle: the same well-formed program (creating calls below a regular file included) on OsFs in a fresh temp dir (step results + final Stat/ReadDir/ReadFile sweep).',
+ 'C01': 'Coq theorems over the faithful MemMapFs model (coq/Model/MemFs.v): child-index invariant WF preserved by every well-formed op sequence, failed calls are no-ops, listing/paging, rename moves subtrees, spelling (clean) invariance, a simulation against an independent POSIX spec (coq/Model/Posix.v) for the portable class — which includes creating below a regular file (ENOTDIR on both sides) — and, for every state and every name, nothing is created below a regular file. Tie: every generated sequence (well-formed and malformed) is run on the real MemMapFs, on the extracted model (incl. full dumps of the path map and child index) and, inside the proved class, on the extracted POSIX spec; oracle: the same well-formed program on OsFs in a fresh temp dir (step results + final Stat/ReadDir/ReadFile sweep).',
  'C02': 'Coq refinement theorem: for all contents, handle sets and op sequences the model of mem.File equals the flat byte-array spec (ByteFile.v) under projection, never panics, inert handles never change data. Tie: differential run of mem.File (direct handles and through MemMapFs) against model and spec, exhaustive over short sequences.',
  'C03': 'PARTIAL. Coq model of the lock discipline of memmap.go/mem/file.go (one action per lock operation; the per-function lock table is regenerated from the AST on every run and must equal the declared one) with theorems over all schedules and all programs of the class: every conflicting pair of annotated accesses is ordered (lockset / happens-before), no deadlock (lock order), no unlock error, no lock leak, locks balanced after a panic, quiescent tree consistency. The Go memory model, the race detector and the scheduler are outside the model: -race stress in child processes (pair matrix + random program sets, watchdog for deadlocks, race-report parser) and a post-quiescence consistency sweep search for failing executions.',
  'C04': 'PARTIAL. Coq theorem: every history of a machine whose calls take effect in one atomic step of the sequential model is linearizable (any threads, any schedule); methods with several critical sections are modelled by explicit section tables whose shape is read from the source on every run (today: all in the one-section position, by reflexivity facts), with refutation theorems for every split shape. Tie/search: concurrent histories of the real MemMapFs (stress under real preemption, window programs, and an instrumented cooperative scheduler exploring schedules by DFS/random) are searched for a linearization against the EXTRACTED sequential model (verified checker) plus direct checks of the exactly-one-winner and torn-read clauses. Outside the model: which Go lock protects which section against which handle operation.',
@@ -20,8 +20,8 @@ LEVEL_TEXT = {
  'C07': 'Coq theorems for ANY source with contract K (proved for MemMapFs, inherited through BasePathFs/ReadOnlyFs): mutators return EPERM without consulting the source, reads are transparent, the source view is frozen over all op sequences and all integer flag values. Tie: differential on ro(mem), ro(bp(mem)), ro(ro(mem)); oracle: deep source snapshot per step, flag sweep.',
  'C08': 'Coq theorems for every root and every name string: RealPath results lie segment-wise below the cleaned root (incl. nested roots, Symlink/Lstat/Readlink names, httpDir targets), the wrapper makes one forwarded call whose names are all confined, escaping names are refused without touching the source. Tie: exhaustive RealPath/httpDir comparison on short names, op sequences with prefix-sharing siblings; oracle: everything outside the root unchanged and never leaked.',
  'C09': 'Coq theorems: for in-root names each BasePathFs op equals the source op with Clean(Join(D,name)), Name() is the path relative to D, stacking equals the joined root (for names/roots that never step up; counterexample otherwise), FullBaseFsPath is the joined path. Tie + oracle: twin MemMapFs with joined paths, per-step equality and equal final snapshots.',
- 'C10': 'Coq theorems on the CacheOnReadFs model: cacheStatus classifies by the three rules of the property for all times/durations, Open by status, first read leaves an identical copy with the base mtime (MemMapFs layers), duration zero never consults the base. Tie: cache:0 / cache:1000 stacks with explicit past mtimes; oracle implements the three rules on observed bytes.',
- 'C11': 'Coq theorems: union handles keep base and layer offsets aligned under Read/Write/Seek/WriteAt/Truncate/ReadAt, mutators reach base then layer. Tie: well-formed programs through the union from coherent pairs; oracle: every cache file equals the base file after every step, reads through the union equal the base.',
+ 'C10': 'Coq theorems on the CacheOnReadFs model: cacheStatus classifies by the three rules of the property for all times/durations, Open by status, the layer accepts the copy for every well-formed layer and name (C10_layer_ready; the corner below a cached regular file refuted with a reachable witness), the first read leaves an identical copy with the base mtime, duration zero never consults the base. Tie: cache:0 / cache:1000 stacks with explicit past mtimes; oracle implements the three rules on observed bytes (read-only and read-write handles, Read and ReadAt), sub-second and extreme mtimes, an OsFs layer scenario.',
+ 'C11': 'Coq theorems: an invariant CInv of (base, layer, handle table) — both layers well-formed, layer nodes paired with base nodes of equal kind and bytes, union handles aligned — holds initially and for every coherent pair and is preserved by all 25 operations for every duration, time and flag word of the well-formed class; hence after every call each file of the cache layer exists in the base with identical content and reads through the cache return what the base holds. Tie: well-formed programs through the union from coherent pairs; oracle: every cache file equals the base file after every step, reads through the union equal the base, read-only bases, base and layer on the OS.',
  'C12': 'Coq theorem over ALL single-fault plans (every call index, error/short write/early EOF) on the copy-up model with MemMapFs layers: the layer entry is absent, the old copy or the complete new copy, and incomplete copies report an error. Tie: Go fault injector with the same call numbering (call traces compared), exhaustive single-fault enumeration for cow and cache callers.',
  'C13': 'Coq theorems for any source and matcher: ops naming a hidden regular file are refused making only Stat probes (so nothing Stat preserves can change), listings from Open/OpenFile handles are filtered, matching files and directories are transparent; MemMapFs instance: snapshot unchanged. Tie + oracle: deep snapshots of every non-matching file per step, leaks in results, transparency sweep; patterns compared with package regexp.',
  'C14': 'Coq theorems for all archives and read programs: reads through any interleaving of handles equal the read-only byte-array spec, no panics, entries found under cleaned names, listings are exactly the children, mutators fail without effect (zipfs and tarfs models). Tie: archives written with archive/zip (Store, Deflate) and archive/tar; oracle: the known entry list.',
